@@ -1118,6 +1118,9 @@ func (t *typing) interpBlock(s *tstate, env tenv, stmts []ast.Stmt, path string)
 		case *ast.ExprStmt:
 			t.evalExpr(s, env, u.X, path)
 		case *ast.AssignStmt:
+			for _, l := range u.Lhs {
+				t.directWrite(s, l, path)
+			}
 			var vals []aval
 			for _, r := range u.Rhs {
 				vals = append(vals, t.evalExpr(s, env, r, path))
@@ -1133,7 +1136,9 @@ func (t *typing) interpBlock(s *tstate, env tenv, stmts []ast.Stmt, path string)
 					}
 				}
 			}
-		case *ast.DeclStmt, *ast.IncDecStmt, *ast.EmptyStmt:
+		case *ast.IncDecStmt:
+			t.directWrite(s, u.X, path)
+		case *ast.DeclStmt, *ast.EmptyStmt:
 		case *ast.ReturnStmt:
 			var v aval
 			for _, r := range u.Results {
@@ -1431,6 +1436,14 @@ func (t *typing) joinStates(in []*tstate, path, what string, inexactOK bool) *ts
 	for _, s := range in {
 		if s.unknown == "" {
 			live = append(live, s)
+		}
+	}
+	if len(live) != len(in) {
+		// one of the paths has an effect the analysis cannot determine: so has the join
+		for _, s := range in {
+			if s.unknown != "" {
+				return s
+			}
 		}
 	}
 	if len(live) == 0 {
@@ -2244,4 +2257,37 @@ func (t *typing) codePushResetsLoops() bool {
 		return true
 	})
 	return ok
+}
+
+// directWrite: an action (not a ParserData method) that assigns a field of the parser data directly bypasses the
+// helpers whose effect the analysis knows: its effect is unknown.  Configuration flags are exempt (no typing effect).
+func (t *typing) directWrite(s *tstate, lhs ast.Expr, path string) {
+	if t.depth > 0 {
+		return // inside a ParserData method: its effect is modelled as a primitive or by its calls
+	}
+	x := lhs
+	viaConfig := false
+	for {
+		switch u := x.(type) {
+		case *ast.SelectorExpr:
+			if u.Sel.Name == "Config" {
+				viaConfig = true
+			}
+			if t.isDataRecv(u.X) {
+				if !viaConfig && u.Sel.Name != "Config" {
+					s.unknown = "the action at " + path + " assigns parser data field " + u.Sel.Name + " directly (not through a ParserData helper)"
+				}
+				return
+			}
+			x = u.X
+		case *ast.IndexExpr:
+			x = u.X
+		case *ast.StarExpr:
+			x = u.X
+		case *ast.ParenExpr:
+			x = u.X
+		default:
+			return
+		}
+	}
 }
